@@ -840,6 +840,7 @@ func checkC04(w *World, c *Check, tier string) {
 	c.floor("C04.rec", 2)
 	c.floor("C04.swap", 1)
 	checkSwapRecursion(w, c)
+	checkLoadOnce(w, c)
 	entries := decodeEntries(w)
 	c.stat("decode_entry_points", len(entries))
 	if len(entries) < 20 {
@@ -941,6 +942,7 @@ func checkC04(w *World, c *Check, tier string) {
 		}
 		npanic += cnt
 	}
+	checkNilFields(w, c, D)
 	c.ok("C04.panic", "scan", "-", fmt.Sprintf("%d functions scanned for explicit panics, single-result assertions, integer division, slice-to-array conversion; %d found", len(D), npanic))
 
 	// ---- loops ----
@@ -1441,6 +1443,414 @@ func reachesFn(adj map[*ssa.Function][]decEdge, from, to *ssa.Function) bool {
 				seen[e.to] = true
 				work = append(work, e.to)
 			}
+		}
+	}
+	return false
+}
+
+// checkLoadOnce (C04.once): decoding time stays proportional to the document only if every loader reads one JSON value
+// at most once per call. A loader that hands the SAME value to the object loader twice (directly and through a
+// delegated loader) does the whole work below it twice; since values nest through replies/likes/context…, the cost
+// doubles at every nesting level and a small, deeply nested document takes exponential time.
+// For each JSONLoad* function f the number of times each other loader g is reached with f's own document value on one
+// path is computed (unconditional call sites and the single-shot On* callbacks add up, alternatives of a dispatch
+// count as their maximum) and must not exceed one.
+func checkLoadOnce(w *World, c *Check) {
+	var loaders []*ssa.Function
+	isLoader := map[*ssa.Function]bool{}
+	for _, f := range w.Funcs {
+		if f.Parent() == nil && strings.HasPrefix(f.Name(), "JSONLoad") && len(f.Params) >= 1 && isFastjsonValuePtr(f.Params[0].Type()) {
+			loaders = append(loaders, f)
+			isLoader[f] = true
+		}
+	}
+	sort.Slice(loaders, func(i, j int) bool { return funcName(loaders[i]) < funcName(loaders[j]) })
+	memo := map[*ssa.Function]map[*ssa.Function]int{}
+	busy := map[*ssa.Function]bool{}
+	var total func(f *ssa.Function) map[*ssa.Function]int
+	total = func(f *ssa.Function) map[*ssa.Function]int {
+		if m, ok := memo[f]; ok {
+			return m
+		}
+		if busy[f] {
+			return map[*ssa.Function]int{}
+		}
+		busy[f] = true
+		defer delete(busy, f)
+		sum := map[*ssa.Function]int{}
+		val := f.Params[0]
+		sameVal := func(v ssa.Value, fn *ssa.Function) bool {
+			v = unwrap(v)
+			if v == ssa.Value(val) {
+				return true
+			}
+			if fv, ok := v.(*ssa.FreeVar); ok {
+				// closures of f capture val directly or through the cell it was spilled to
+				for g := fn; g != nil; g = g.Parent() {
+					if g == f {
+						return strings.Contains(fv.Name(), val.Name())
+					}
+				}
+			}
+			if ld, ok := v.(*ssa.UnOp); ok && ld.Op == token.MUL {
+				if fv, ok := ld.X.(*ssa.FreeVar); ok {
+					return fv.Name() == val.Name()
+				}
+				if al, ok := ld.X.(*ssa.Alloc); ok {
+					for _, st := range storesTo(al) {
+						if st.Val == ssa.Value(val) {
+							return len(storesTo(al)) == 1
+						}
+					}
+				}
+			}
+			return false
+		}
+		// longest path through the control-flow graph of f (back edges ignored: a loader call inside a loop counts
+		// twice), a closure counting at the block that creates it
+		var pathMax func(g *ssa.Function) map[*ssa.Function]int
+		pathMax = func(g *ssa.Function) map[*ssa.Function]int {
+			weight := map[*ssa.BasicBlock]map[*ssa.Function]int{}
+			lh := loopHeaders(g)
+			addW := func(b *ssa.BasicBlock, m map[*ssa.Function]int) {
+				mult := 1
+				if len(lh[b]) > 0 {
+					mult = 2
+				}
+				if weight[b] == nil {
+					weight[b] = map[*ssa.Function]int{}
+				}
+				for k, v := range m {
+					weight[b][k] += v * mult
+				}
+			}
+			for _, b := range g.Blocks {
+				for _, in := range b.Instrs {
+					switch in := in.(type) {
+					case *ssa.MakeClosure:
+						addW(b, pathMax(in.Fn.(*ssa.Function)))
+					case ssa.CallInstruction:
+						cal := in.Common().StaticCallee()
+						if cal == nil || !isLoader[cal] || len(in.Common().Args) == 0 || !sameVal(in.Common().Args[0], g) {
+							continue
+						}
+						contrib := map[*ssa.Function]int{cal: 1}
+						for k, v := range total(cal) {
+							contrib[k] += v
+						}
+						addW(b, contrib)
+					}
+				}
+			}
+			best := map[*ssa.BasicBlock]map[*ssa.Function]int{}
+			var walk func(b *ssa.BasicBlock) map[*ssa.Function]int
+			walk = func(b *ssa.BasicBlock) map[*ssa.Function]int {
+				if m, ok := best[b]; ok {
+					return m
+				}
+				best[b] = map[*ssa.Function]int{} // cut (only reached through a back edge)
+				m := map[*ssa.Function]int{}
+				for _, s := range b.Succs {
+					if s.Dominates(b) {
+						continue
+					}
+					for k, v := range walk(s) {
+						if v > m[k] {
+							m[k] = v
+						}
+					}
+				}
+				for k, v := range weight[b] {
+					m[k] += v
+				}
+				best[b] = m
+				return m
+			}
+			if len(g.Blocks) == 0 {
+				return map[*ssa.Function]int{}
+			}
+			return walk(g.Blocks[0])
+		}
+		sum = pathMax(f)
+		memo[f] = sum
+		return sum
+	}
+	// only a loader that descends into nested values (reaches the item loader again) multiplies the work per level
+	descends := map[*ssa.Function]bool{}
+	if item := w.Func("JSONLoadItem"); item != nil {
+		for _, g := range loaders {
+			for _, r := range w.Reach([]*ssa.Function{g}, nil) {
+				if r == item && g != item {
+					descends[g] = true
+				}
+			}
+		}
+		descends[item] = true
+	}
+	for _, f := range loaders {
+		t := total(f)
+		bad := ""
+		for _, g := range loaders {
+			if t[g] > 1 && descends[g] {
+				bad = fmt.Sprintf("%s hands its document value to %s %d times on one path (directly and/or through a delegated loader): everything below is decoded twice, and because values nest (replies, likes, context, …) the cost doubles with every level — a few kilobytes of nesting take exponential time", funcName(f), funcName(g), t[g])
+			}
+		}
+		if bad != "" {
+			c.bad("C04.once", funcName(f), w.FuncPos(f), bad)
+		} else {
+			c.ok("C04.once", funcName(f), w.FuncPos(f), "each delegated loader is reached at most once with this value")
+		}
+	}
+	c.floor("C04.once", 10)
+}
+
+// checkNilFields (C04.nilfield): the decoders fill freshly made values, so a pointer-typed struct field (Actor.Endpoints)
+// is nil when the decoder reaches it. Every place in the decode closure that dereferences the value loaded from such a
+// field — a field access, a load or store through it, or a method call whose body touches the receiver without testing
+// it — must be preceded, on every path, by a store of a non-nil value to that field or sit under a test that the
+// field is not nil. Otherwise an input that merely mentions the property makes the decoder panic.
+func checkNilFields(w *World, c *Check, D []*ssa.Function) {
+	n := 0
+	derefMemo := map[*ssa.Function]bool{}
+	for _, f := range D {
+		cnt := 0
+		for _, b := range f.Blocks {
+			for _, in := range b.Instrs {
+				var ptr ssa.Value
+				how := ""
+				switch x := in.(type) {
+				case *ssa.FieldAddr:
+					ptr, how = x.X, "field access"
+				case *ssa.UnOp:
+					if x.Op == token.MUL {
+						ptr, how = x.X, "load"
+					}
+				case *ssa.Store:
+					ptr, how = x.Addr, "store"
+				case ssa.CallInstruction:
+					cal := x.Common().StaticCallee()
+					if cal != nil && cal.Signature.Recv() != nil && len(x.Common().Args) > 0 && derefsParamUnguarded(cal, 0, derefMemo) {
+						ptr, how = x.Common().Args[0], "call of "+funcName(cal)+", which uses its receiver without a nil test"
+					}
+				}
+				if ptr == nil {
+					continue
+				}
+				ld, ok := ptr.(*ssa.UnOp)
+				if !ok || ld.Op != token.MUL {
+					continue
+				}
+				fa, ok := ld.X.(*ssa.FieldAddr)
+				if !ok {
+					continue
+				}
+				pt, ok := ld.Type().Underlying().(*types.Pointer)
+				if !ok {
+					continue
+				}
+				if _, ok := pt.Elem().Underlying().(*types.Struct); !ok {
+					continue
+				}
+				st := fa.X.Type().Underlying().(*types.Pointer).Elem().Underlying().(*types.Struct)
+				cnt++
+				n++
+				key := fmt.Sprintf("%s:%s.%s#%d", funcName(f), typeName(fa.X.Type()), st.Field(fa.Field).Name(), cnt)
+				if why, ok := fieldKnownNonNil(fa, ld, in); ok {
+					c.ok("C04.nilfield", key, w.InstrPos(in), why)
+				} else {
+					c.bad("C04.nilfield", key, w.InstrPos(in), fmt.Sprintf("%s: %s through the pointer field %s, which nothing on this path has set or tested: a decoder starts from a fresh value where the field is nil, so an input carrying this property panics with a nil dereference", funcName(f), how, st.Field(fa.Field).Name()))
+				}
+			}
+		}
+	}
+	c.stat("pointer_field_dereferences_in_D", n)
+	c.ok("C04.nilfield", "scan", "-", fmt.Sprintf("%d functions of the decode closure scanned; %d dereferences of pointer-to-struct fields examined", len(D), n))
+}
+
+// derefsParamUnguarded: the function dereferences its idx-th parameter on some path that has not tested it against nil.
+func derefsParamUnguarded(f *ssa.Function, idx int, memo map[*ssa.Function]bool) bool {
+	if v, ok := memo[f]; ok {
+		return v
+	}
+	memo[f] = false
+	if len(f.Blocks) == 0 || idx >= len(f.Params) {
+		return false
+	}
+	p := f.Params[idx]
+	if _, ok := p.Type().Underlying().(*types.Pointer); !ok {
+		return false
+	}
+	res := false
+	for _, ref := range *p.Referrers() {
+		deref := false
+		switch x := ref.(type) {
+		case *ssa.FieldAddr:
+			deref = x.X == ssa.Value(p)
+		case *ssa.UnOp:
+			deref = x.Op == token.MUL && x.X == ssa.Value(p)
+		case *ssa.Store:
+			deref = x.Addr == ssa.Value(p)
+		case ssa.CallInstruction:
+			cal := x.Common().StaticCallee()
+			if cal != nil && !x.Common().IsInvoke() {
+				for i, a := range x.Common().Args {
+					if a == ssa.Value(p) && derefsParamUnguarded(cal, i, memo) {
+						deref = true
+					}
+				}
+			}
+		}
+		if deref && !underNonNilTest(p, ref.Block()) {
+			res = true
+		}
+	}
+	memo[f] = res
+	return res
+}
+
+// underNonNilTest: block b is only reached through the not-nil outcome of a comparison of v with nil.
+func underNonNilTest(v ssa.Value, b *ssa.BasicBlock) bool {
+	for d := b; d != nil; d = d.Idom() {
+		id := d.Idom()
+		if id == nil {
+			break
+		}
+		iff, ok := id.Instrs[len(id.Instrs)-1].(*ssa.If)
+		if !ok {
+			continue
+		}
+		bo, ok := iff.Cond.(*ssa.BinOp)
+		if !ok || (bo.Op != token.EQL && bo.Op != token.NEQ) {
+			continue
+		}
+		var other ssa.Value
+		if isNilConst(bo.Y) {
+			other = bo.X
+		} else if isNilConst(bo.X) {
+			other = bo.Y
+		} else {
+			continue
+		}
+		if !sameFieldLoadOrValue(other, v) {
+			continue
+		}
+		nonNilSucc := id.Succs[0]
+		nilSucc := id.Succs[1]
+		if bo.Op == token.EQL {
+			nonNilSucc, nilSucc = nilSucc, nonNilSucc
+		}
+		if nonNilSucc.Dominates(b) && len(nonNilSucc.Preds) == 1 {
+			return true
+		}
+		// "if v == nil { return }" form: the nil branch never reaches b
+		if !reaches(nilSucc, b) {
+			return true
+		}
+	}
+	return false
+}
+
+// sameFieldLoadOrValue: a and b are the same SSA value, or loads of the same field of the same base value.
+func sameFieldLoadOrValue(a, b ssa.Value) bool {
+	if a == b {
+		return true
+	}
+	la, ok1 := a.(*ssa.UnOp)
+	lb, ok2 := b.(*ssa.UnOp)
+	if !ok1 || !ok2 || la.Op != token.MUL || lb.Op != token.MUL {
+		return false
+	}
+	fa, ok1 := la.X.(*ssa.FieldAddr)
+	fb, ok2 := lb.X.(*ssa.FieldAddr)
+	return ok1 && ok2 && fa.X == fb.X && fa.Field == fb.Field
+}
+
+// fieldKnownNonNil: the value ld loaded from field fa is non-nil at instruction at: it sits under a not-nil test of the
+// same field, or every path to it passes a store of a fresh (non-nil) value into that field with no later store of
+// anything else.
+func fieldKnownNonNil(fa *ssa.FieldAddr, ld *ssa.UnOp, at ssa.Instruction) (string, bool) {
+	if underNonNilTest(ld, at.Block()) {
+		return "under a not-nil test of the field", true
+	}
+	f := at.Parent()
+	// stores into the same field of the same base
+	var sets []*ssa.Store
+	for _, b := range f.Blocks {
+		for _, in := range b.Instrs {
+			st, ok := in.(*ssa.Store)
+			if !ok {
+				continue
+			}
+			sfa, ok := st.Addr.(*ssa.FieldAddr)
+			if !ok || sfa.X != fa.X || sfa.Field != fa.Field {
+				continue
+			}
+			if !freshNonNil(st.Val) {
+				return "", false
+			}
+			sets = append(sets, st)
+		}
+	}
+	// "if x.F == nil { x.F = new(T) }": the nil outcome of a test of the field leads to a store, and the test dominates
+	for _, st := range sets {
+		if st.Block() == ld.Block() && instrIndex(st) < instrIndex(ld) {
+			return "set just before", true
+		}
+		if st.Block().Dominates(ld.Block()) && st.Block() != ld.Block() {
+			return "set on every path", true
+		}
+		// guarded allocation
+		id := st.Block().Idom()
+		if id == nil || !id.Dominates(ld.Block()) {
+			continue
+		}
+		iff, ok := id.Instrs[len(id.Instrs)-1].(*ssa.If)
+		if !ok {
+			continue
+		}
+		bo, ok := iff.Cond.(*ssa.BinOp)
+		if !ok || (bo.Op != token.EQL && bo.Op != token.NEQ) {
+			continue
+		}
+		var other ssa.Value
+		if isNilConst(bo.Y) {
+			other = bo.X
+		} else if isNilConst(bo.X) {
+			other = bo.Y
+		}
+		if other == nil || !sameFieldLoadOrValue(other, ld) {
+			continue
+		}
+		nilSucc := id.Succs[0]
+		if bo.Op == token.NEQ {
+			nilSucc = id.Succs[1]
+		}
+		if nilSucc == st.Block() && len(st.Block().Preds) == 1 {
+			return "allocated when found nil", true
+		}
+	}
+	return "", false
+}
+
+func freshNonNil(v ssa.Value) bool {
+	switch x := v.(type) {
+	case *ssa.Alloc:
+		return true
+	case *ssa.Call:
+		// constructors of the package return a new value
+		if cal := x.Common().StaticCallee(); cal != nil {
+			for _, b := range cal.Blocks {
+				for _, in := range b.Instrs {
+					if r, ok := in.(*ssa.Return); ok {
+						for _, rv := range r.Results {
+							if _, ok := rv.(*ssa.Alloc); !ok {
+								return false
+							}
+						}
+					}
+				}
+			}
+			return len(cal.Blocks) > 0
 		}
 	}
 	return false
